@@ -465,7 +465,11 @@ class Sym:
         except TypeError:
             return True
 
-    __hash__ = None
+    def __hash__(self):
+        # structural: the same term hashes alike (a dict / set keyed on a symbolic value finds the *same* value again,
+        # e.g. a module-level cache keyed on an argument); two different terms that happen to be numerically equal are
+        # treated as different keys (an under-approximation of float keys, stated in DESIGN.md)
+        return hash(("Sym", self.p.key()))
 
     def __bool__(self):
         return bool(self != 0)
